@@ -82,10 +82,10 @@ fn walktree_cancel_guard() {
     unsafe {
         KIND = kind;
     }
-    let mut tree = WalkTree {
-        is_dir: kani::any(),
-        input: WalkDir::new("x").into_iter(),
-    };
+    // built by the real constructor (a struct literal would stop compiling, and the check turn
+    // inconclusive, as soon as the type gains a field); the flag left by earlier history is arbitrary
+    let mut tree = WalkTree::with_pivot_and_behavior(PathBuf::from("x"), 0, WalkBehavior::default());
+    tree.is_dir = kani::any();
     let item = tree.next();
     match kind {
         0 => assert!(item.is_none()),
@@ -98,6 +98,80 @@ fn walktree_cancel_guard() {
     kani::cover!(kind == 1 && skips == 1);
     kani::cover!(kind == 4);
     std::mem::forget(item);
+    std::mem::forget(tree);
+}
+
+// what the (stubbed) traversal delivers first and second, and at which walkdir depths
+static mut KINDS: [u8; 2] = [0; 2];
+static mut DEPTHS: [usize; 2] = [1; 2];
+static mut DELIVERED: usize = 0;
+
+fn stub_next_sequence(_this: &mut walkdir::IntoIter) -> Option<Result<DirEntry, walkdir::Error>> {
+    let (kind, depth) = unsafe {
+        let i = if DELIVERED < 2 { DELIVERED } else { 1 };
+        DELIVERED += 1;
+        (KINDS[i], DEPTHS[i])
+    };
+    match kind {
+        0 => None,
+        4 => Some(Err(unsafe {
+            std::mem::transmute::<MirrorError, walkdir::Error>(MirrorError {
+                depth,
+                inner: MirrorInner::Loop {
+                    ancestor: PathBuf::new(),
+                    child: PathBuf::new(),
+                },
+            })
+        })),
+        kind => {
+            let mut entry = unsafe { std::mem::transmute::<DirEntry, MirrorDirEntry>(fabricate(kind)) };
+            entry.depth = depth;
+            Some(Ok(unsafe { std::mem::transmute::<MirrorDirEntry, DirEntry>(entry) }))
+        },
+    }
+}
+
+/// A history of two deliveries from a walk built by the real constructor: every tree discard that
+/// follows a directory is forwarded to the traversal, whatever was delivered and discarded before
+/// it and at whatever depths (consecutive sibling directories, a shallower or deeper directory
+/// after a discarded one, a discard after a file or a link in between). A discard is issued
+/// after each delivery or only after the second one.
+#[kani::proof]
+#[kani::unwind(6)]
+#[kani::stub(<walkdir::IntoIter as std::iter::Iterator>::next, stub_next_sequence)]
+#[kani::stub(walkdir::IntoIter::skip_current_dir, stub_skip)]
+fn walktree_cancel_history() {
+    let k0: u8 = kani::any();
+    let k1: u8 = kani::any();
+    // (error items are left to the single-step harness: two fabricated `walkdir::Error` values in
+    // one run make CBMC report spurious deallocation failures in their drop glue)
+    kani::assume(k0 >= 1 && k0 < 4 && k1 >= 1 && k1 < 4);
+    let d0: usize = kani::any();
+    let d1: usize = kani::any();
+    kani::assume(d0 >= 1 && d0 < 4 && d1 >= 1 && d1 < 4);
+    let cancel_first: bool = kani::any();
+    unsafe {
+        KINDS = [k0, k1];
+        DEPTHS = [d0, d1];
+    }
+    let mut tree = WalkTree::with_pivot_and_behavior(PathBuf::from("r"), 0, WalkBehavior::default());
+    let first = tree.next();
+    assert!(first.is_some());
+    if cancel_first {
+        tree.cancel_walk_tree();
+    }
+    let after_first = unsafe { SKIPS };
+    assert!(after_first == (cancel_first && k0 == 1) as u8);
+    let second = tree.next();
+    assert!(second.is_some());
+    tree.cancel_walk_tree();
+    let after_second = unsafe { SKIPS };
+    assert!(after_second == after_first + (k1 == 1) as u8);
+    kani::cover!(k0 == 1 && k1 == 1 && d0 == d1 && cancel_first && after_second == 2);
+    kani::cover!(k0 == 1 && k1 == 1 && d1 < d0 && cancel_first);
+    kani::cover!(k0 == 2 && k1 == 1 && after_second == 1);
+    std::mem::forget(first);
+    std::mem::forget(second);
     std::mem::forget(tree);
 }
 
